@@ -14,6 +14,121 @@ import (
 	"strings"
 )
 
+// c13LockRegion: the real baseScreen.LockRegion over the real terminfo screen, evaluated on a concrete 4x3 buffer
+// for regions that touch the right-most column and the bottom row, reach past the buffer, or lie inside: afterwards
+// exactly the cells of (region intersected with buffer) carry the lock flag, and unlocking the same region clears it.
+func c13LockRegion(run *PropRun) {
+	e := run.Eng
+	db := LoadTermDB(e, true)
+	c := db.Ev.C
+	te := db.ByName["xterm"]
+	lockRegion := e.FindFunc(modPath + ".(*baseScreen).LockRegion")
+	resize := e.FindFunc(modPath + ".(*CellBuffer).Resize")
+	bsT := e.SPkgs[modPath].Type("baseScreen")
+	if te == nil || lockRegion == nil || resize == nil || bsT == nil {
+		panic(VerErr{"UNDECIDED: baseScreen.LockRegion / xterm description not found"})
+	}
+	fs, tp := c04Prepared(db, te)
+	tv := c.mem(fs, tp.Obj).(*StructV)
+	stt := under(tv.Typ).(*types.Struct)
+	cellsIdx := -1
+	for i := 0; i < stt.NumFields(); i++ {
+		if stt.Field(i).Name() == "cells" {
+			cellsIdx = i
+		}
+	}
+	const W, H = 4, 3
+	for _, rg := range [][4]int64{{1, 1, 2, 1}, {2, 1, 2, 2}, {0, 0, 4, 3}, {3, 2, 1, 1}, {2, 1, 5, 5}, {-1, -1, 3, 3}, {0, 2, 4, 1}} {
+		name := fmt.Sprintf("LockRegion[%d,%d,%d,%d]/exactly-the-region", rg[0], rg[1], rg[2], rg[3])
+		st := fs.clone()
+		st.Frames = nil
+		st.PathID = 0
+		st.CallLog = nil
+		cells := PtrV{Obj: tp.Obj, Path: []PathElem{{Field: cellsIdx}}}
+		ps, err := db.Ev.Call(st, resize, []Value{cells, c.idx(W), c.idx(H)})
+		if err != nil || len(ps) != 1 {
+			run.Errors = append(run.Errors, fmt.Sprintf("%s: Resize: %v", name, err))
+			continue
+		}
+		st = ps[0].St
+		st.Frames = nil
+		bo := c.newObject("basescreen", bsT.Type())
+		bv := c.zeroValue(st, bsT.Type()).(*StructV)
+		nb := &StructV{Typ: bv.Typ, F: append([]Value(nil), bv.F...)}
+		nb.F[0] = IfaceV{Dyn: types.NewPointer(tv.Typ), Val: tp, Iface: under(bsT.Type()).(*types.Struct).Field(0).Type()}
+		st.Mem[bo] = nb
+		locked := func(s *State) (map[[2]int]bool, bool) {
+			out := map[[2]int]bool{}
+			sv := c.mem(s, tp.Obj).(*StructV)
+			cb := sv.F[cellsIdx].(*StructV)
+			var sl SliceV
+			for k := range cb.F {
+				if v, ok := cb.F[k].(SliceV); ok {
+					sl = v
+				}
+			}
+			if sl.Heap || sl.Obj == nil {
+				return nil, false
+			}
+			arr := c.mem(s, sl.Obj).(*ArrayV)
+			for k := 0; k < sl.CLen; k++ {
+				cv := arr.Elems[sl.COff+k].(*StructV)
+				ct := under(cv.Typ).(*types.Struct)
+				for f := 0; f < ct.NumFields(); f++ {
+					if ct.Field(f).Name() == "lock" {
+						t, ok := cv.F[f].(*Term)
+						if !ok || !(t.IsTrue() || t.IsFalse()) {
+							return nil, false
+						}
+						out[[2]int{k % W, k / W}] = t.IsTrue()
+					}
+				}
+			}
+			return out, true
+		}
+		ok := true
+		why := ""
+		cur := st
+		for _, lk := range []bool{true, false} {
+			ps, err := db.Ev.Call(cur, lockRegion, []Value{PtrV{Obj: bo}, c.idx(rg[0]), c.idx(rg[1]), c.idx(rg[2]), c.idx(rg[3]), BoolT(lk)})
+			if err != nil || len(ps) != 1 {
+				ok, why = false, fmt.Sprintf("evaluation: %v (%d paths)", err, len(ps))
+				break
+			}
+			cur = ps[0].St
+			cur.Frames = nil
+			got, conc := locked(cur)
+			if !conc {
+				ok, why = false, "lock flags not concrete"
+				break
+			}
+			for y := 0; y < H; y++ {
+				for x := 0; x < W; x++ {
+					in := int64(x) >= rg[0] && int64(x) < rg[0]+rg[2] && int64(y) >= rg[1] && int64(y) < rg[1]+rg[3]
+					if got[[2]int{x, y}] != (in && lk) {
+						ok = false
+						why = fmt.Sprintf("after LockRegion(..., %v) the cell (%d,%d) has lock=%v", lk, x, y, got[[2]int{x, y}])
+					}
+				}
+			}
+		}
+		g := run.AddObligation(name, "table", BoolT(ok), fmt.Sprintf("on a %dx%d screen LockRegion(%d,%d,%d,%d,true) locks exactly the cells of the region that are on the screen and LockRegion(...,false) unlocks them again %s", W, H, rg[0], rg[1], rg[2], rg[3], why))
+		g.ReplayGo = replayTest("tcell", []string{modPath + "/terminfo"}, fmt.Sprintf(`
+	scr := &tScreen{ti: &terminfo.Terminfo{}}
+	scr.cells.Resize(%d, %d)
+	b := &baseScreen{screenImpl: scr}
+	for _, lk := range []bool{true, false} {
+		b.LockRegion(%d, %d, %d, %d, lk)
+		for y := 0; y < %d; y++ {
+			for x := 0; x < %d; x++ {
+				in := x >= %d && x < %d+%d && y >= %d && y < %d+%d
+				if got := scr.cells.cells[y*%d+x].lock; got != (in && lk) { fail("after LockRegion(%d,%d,%d,%d,%%v) the cell (%%d,%%d) has lock=%%v", lk, x, y, got); return }
+			}
+		}
+	}`, W, H, rg[0], rg[1], rg[2], rg[3], H, W, rg[0], rg[0], rg[2], rg[1], rg[1], rg[3], W, rg[0], rg[1], rg[2], rg[3]))
+	}
+}
+
 func c13Corner(run *PropRun) {
 	e := run.Eng
 	db := LoadTermDB(e, true)
